@@ -382,7 +382,7 @@ class MarkFeatureWriter(BaseFeatureWriter):
                 x, y = self._getAnchor(glyphName, anchorName, anchor=anchor)
                 libData = None
                 if anchor.identifier:
-                    libData = glyph.lib[OBJECT_LIBS_KEY].get(anchor.identifier)
+                    libData = glyph.lib.get(OBJECT_LIBS_KEY, {}).get(anchor.identifier)
                 a = self.NamedAnchor(name=anchorName, x=x, y=y, libData=libData)
                 if a.isContextual and not libData:
                     continue
